@@ -38,7 +38,7 @@ def _profile(tier, **kw):
 
 
 def time_columns(n):
-    base = st.sampled_from(['scaled', 'shifted', 'jitter', 'nonuniform', 'negative'])
+    base = st.sampled_from(['scaled', 'shifted', 'jitter', 'nonuniform', 'negative', 'epoch-integers'])
 
     @st.composite
     def mk(draw):
@@ -51,6 +51,10 @@ def time_columns(n):
             return [s + i for i in range(n)]
         if kind == 'negative':
             return [float(i - n) for i in range(n)]
+        if kind == 'epoch-integers':
+            # nanoseconds since the epoch as Python integers (beyond 2**53): the pairs carry them back unchanged
+            t0 = draw(st.sampled_from([1700000000000000123, 2 ** 53 + 1, 1700000000123456789]))
+            return [t0 + i * 1000000000 + draw(st.integers(0, 255)) for i in range(n)]
         if kind == 'jitter':
             return [i + draw(st.integers(-3, 3)) / 16.0 for i in range(n)]
         t = 0.0
